@@ -774,6 +774,15 @@ def m_split_first(eng, st, fr, t, name, rname, args):
     return mk_option(AggV("tuple", {0: RefV(Cell(K(a[0]), "byte@0")), 1: _mkslice(a[1:], _off(eng, st, args[0], 1))}))
 
 
+def m_split_last(eng, st, fr, t, name, rname, args):
+    a = _bytes_of(eng, st, args[0])
+    if a is None:
+        return NotImplemented
+    if not a:
+        return mk_option(None)
+    return mk_option(AggV("tuple", {0: RefV(Cell(K(a[-1]), "byte@last")), 1: _mkslice(a[:-1], _off(eng, st, args[0], 0))}))
+
+
 def struct_eq(eng, st, a, b, depth=0):
     """structural equality of two abstract values: True / False / None (unknown)"""
     a = eng.resolve(st, a)
@@ -1119,6 +1128,7 @@ FOLD_MODELS.update({
     "core::slice::is_empty": m_slice_is_empty,
     "core::slice::contains": m_slice_contains,
     "core::slice::split_first": m_split_first,
+    "core::slice::split_last": m_split_last,
     "core::cmp::impls::eq": m_bytes_eq,
     "core::slice::ascii::eq_ignore_ascii_case": m_bytes_eq_nocase,
     "core::num::eq_ignore_ascii_case": m_u8_eq_nocase,
